@@ -37,6 +37,7 @@ Record config := {
   c_generic_pred : list pred;               (* generic.default_predicates() *)
   c_dict_strict : bool;                     (* diff_dicts compares values with strict_equals, not != *)
   c_mime_strict : bool;                     (* add_mime_diff likewise *)
+  c_conj_cfg : bool;                        (* diff_single_outputs diffs the output-without-data with path and config *)
 }.
 
 Definition value_eqb (strict : bool) (x y : json) : bool :=
@@ -303,7 +304,8 @@ Section Differ.
                         let a_conj := filter (fun p => negb (str_eqb (fst p) s_data)) ka in
                         let b_conj := filter (fun p => negb (str_eqb (fst p) s_data)) kb in
                         (* diff(a_conj, b_conj): default configuration, path "" *)
-                        do dd_conj <- diff_default n' (JObj a_conj) (JObj b_conj);
+                        do dd_conj <- (if c_conj_cfg cfg then diff path (JObj a_conj) (JObj b_conj)
+                                       else diff_default n' (JObj a_conj) (JObj b_conj));
                         do dd <- diff_mime_bundle n' da db;
                         match dd with
                         | [] => Ok dd_conj
